@@ -29,7 +29,7 @@ struct bio_method_st {
 struct bio_st { bio_method_st const *method = nullptr; void *data = nullptr; int init = 0; int flags = 0; };
 struct ssl_method_st { int server; };
 struct ssl_ctx_st { int refs = 1; long mode = 0; };
-struct ssl_st { BIO *rbio = nullptr, *wbio = nullptr; int last_err = 0; bool init = false, server = false, started = false;
+struct ssl_st { BIO *rbio = nullptr, *wbio = nullptr; int last_err = 0; bool init = false, server = false, started = false, more = false;
                 long mode = 0; const void *pend_buf = nullptr; size_t pend_len = 0; };
 
 static unsigned long g_err_queue = 0;     // see ERR_* below
@@ -86,10 +86,14 @@ static std::pair<long long, long long> engine(SSL *ssl, int call, char *rbuf, ch
     return {-1, st};
   }
   long long res = arg(fin), err = arg(fin + 1), init = arg(fin + 2);
+  long long more = arg(fin + 3);                                      // SSL_pending() > 0 afterwards: rest of a decrypted record
   ssl->init = init == 1;
+  ssl->more = more == 1;
   ssl->last_err = static_cast<int>(err);
   if(err == SSL_ERROR_SYSCALL) errno = EIO;
-  if(err == SSL_ERROR_SSL && call != 3) g_err_queue = 0x0A00009Cul;   // (a failing SSL_shutdown leaves an entry too in OpenSSL; not emulated: the destructor swallows what follows)
+  // a fatal error leaves an entry in the thread's error queue — also a failing SSL_shutdown ("shutdown while in init"), whose
+  // entry the destructor used to leave behind for the NEXT socket served by this thread (finding F16)
+  if(err == SSL_ERROR_SSL) g_err_queue = 0x0A00009Cul;
   vos::log(40, {call, static_cast<long long>(size), res, err, init});
   (void)rbuf;
   return {res, err};
@@ -151,6 +155,8 @@ void SSL_set_accept_state(SSL *s) { s->server = true; }
 int SSL_in_before(const SSL *s) { return s->started ? 0 : 1; }
 int SSL_is_server(const SSL *s) { return s->server ? 1 : 0; }
 int SSL_is_init_finished(const SSL *s) { return s->init ? 1 : 0; }
+int SSL_pending(const SSL *s) { return s->more ? 1 : 0; }
+int SSL_has_pending(const SSL *s) { return s->more ? 1 : 0; }
 int SSL_get_error(const SSL *s, int ret) { return (ret <= 0 && g_err_queue) ? SSL_ERROR_SSL : s->last_err; }
 
 int SSL_read(SSL *s, void *buf, int num)
